@@ -325,6 +325,25 @@ Section Decision.
     fold isp in Cnt. rewrite (Cnt l1 F1), (Cnt l2 F2) in L. lia.
   Qed.
 
+  (* key types: whatever carries a key blob whose Type field is not Ed25519 (RSA = 0 with the cargo
+     feature `rsa` off, Secp256k1 = 2, ECDSA = 3, anything else) is never accepted, on either path *)
+  Lemma non_ed25519_never_accepted kb m :
+    decode_keymsg kb = Some m -> k_type m <> 1 ->
+    (forall pb pl rs d p, decode_payload pb = Some pl -> p_key pl = Some kb -> accept pb rs d <> Accept p) /\
+    (forall l sg spki e p, In (XP2p (Some (kb, sg))) l -> tls_accept l spki e <> Accept p).
+  Proof.
+    intros M T. split.
+    - intros pb pl rs d p P K A. rewrite (reject_unknown_key_type pb rs d pl kb m P K M T) in A. discriminate.
+    - intros l sg spki e p I A.
+      apply tls_accept_sound in A as (l1 & kb' & sg' & l2 & k & -> & F1 & F2 & DK & _).
+      assert (E : kb' = kb).
+      { apply in_app_or in I as [I|[I|I]].
+        - rewrite Forall_forall in F1. specialize (F1 _ I). discriminate.
+        - injection I as -> _. reflexivity.
+        - rewrite Forall_forall in F2. specialize (F2 _ I). discriminate. }
+      subst kb'. destruct (decode_pubkey_ok _ _ DK) as (m' & M' & T' & _). congruence.
+  Qed.
+
   (* an extension made for one certificate key is refused in a certificate with another key *)
   Lemma tls_binding :
     (forall pk m m' sg, verify pk m sg = true -> verify pk m' sg = true -> m = m') ->
